@@ -33,6 +33,18 @@ PROPS = {
         },
         "assumptions": COMMON_ASSUME + STR_STUBS,
     },
+    "C08": {
+        "groups": [{"name": "cbor", "tags": "verif", "run": "^VH_C08_", "flags": {"harness-timeout": 280},
+                    "quick": {"params": "strlen=2,members=2"},
+                    "thorough": {"params": "strlen=3,members=3", "harness-timeout": 3000, "max-paths": 5000000}}],
+        "level": "model_checking",
+        "bounds": {
+            "primitives": "for every value kind, J = json.Encoder.P(v), C = cbor.Encoder.P(v), D = Cbor2JsonManyObjects(C); text, keys, []byte and hex with 0..2 (thorough 3) symbolic bytes must be byte-identical (a genuine differential between the two hand-written escapers); integers of every width over their full range and floats over all bit patterns must denote the same number (token arguments compared by the solver; NaN/Inf as the same strings); whole-second timestamps, IPv4/IPv6/MAC/prefix, embedded JSON, RawCBOR data URL, bool, nil, durations; slices of strings/bools/ints/uints/floats",
+            "composition": "scripts of the structural encoder calls the front-end uses (begin/end marker, key, leaf, nested object, array with delimiters, definite slice, context splice via AppendObjectData, line break) with <= 2 (thorough 3) members per level and nesting 1, applied to both encoders and compared after decoding",
+            "outside": "timestamps with a fractional second (the encoder's float64(secs)+float64(nanos)*1e-9 and the decoder's inverse are floating-point chains no solver here decides: 'within one microsecond' is not claimed); digits are rendered by strconv on both sides (trusted); the reduction from whole programs to the encoder interface rests on the front-end files being identical in both builds",
+        },
+        "assumptions": COMMON_ASSUME + STR_STUBS,
+    },
     "C09": {
         "groups": [
             {"name": "prim", "tags": "verif", "run": "^VH_C09_"},
@@ -111,6 +123,11 @@ NOT_APPLICABLE = [
 ]
 
 MANIFEST_TEXT = {
+    "C08": {
+        "level_text": "Bounded model checking of a differential harness: the real JSON encoder and the real CBOR encoder + bundled decoder are run on the same symbolic value in one program and the solver decides equality (bytes for text, numeric value for numbers) for every value within the bounds; structure is covered by a composition lemma over the encoder interface both builds share.",
+        "design_ref": "DESIGN.md §3 C08",
+        "level_note": "Fractional-second timestamps are outside (FP arithmetic chains); strings <= 2-3 bytes; the front-end is assumed identical in both builds (only encoder_json.go / encoder_cbor.go differ by build tag).",
+    },
     "C17": {
         "level_text": "Bounded model checking of the real decoder on arbitrary symbolic input buffers: each implicit run-time check and each allocation size becomes a solver query, so a satisfiable one is a concrete crashing / over-allocating input (replayed natively); plus every cut point of encoder-built two-event streams.",
         "design_ref": "DESIGN.md §3 C17",
